@@ -43,10 +43,11 @@ def tmax(ty):
 
 class AI:
     """abstract integer (see module doc)"""
-    __slots__ = ("ty", "lo", "hi", "dir", "aff")
+    __slots__ = ("ty", "lo", "hi", "dir", "aff", "tag")
 
-    def __init__(self, ty, lo, hi, dir=None, aff=None):
+    def __init__(self, ty, lo, hi, dir=None, aff=None, tag=None):
         self.ty, self.lo, self.hi, self.dir, self.aff = ty, lo, hi, dir, aff
+        self.tag = tag          # ("shr" | "low", a, b, k): this value is (a*y+b) >> k  /  (a*y+b) mod 2^k of an exact source
         if lo == hi:
             self.dir = "c"
             self.aff = (0, lo)
@@ -240,6 +241,10 @@ class Interp:
         lo = hi = None
         d = None
         aff = None
+        if op == "Add" and x.tag and y.tag:
+            r = self.recombine(x, y, ty)
+            if r is not None:
+                return (r, AI("bool", 0, 0)) if want_overflow else r
         if op in ("Add", "Sub"):
             if op == "Sub":
                 yl, yh, yd = -y.hi, -y.lo, flip(y.dir)
@@ -351,8 +356,22 @@ class Interp:
             ov = AI("bool", 0, 0) if inr else AI("bool", 1, 1) if out else AI("bool", 0, 1)
             return self.norm(ty, lo, hi, d if inr else None, aff), ov
         if lo >= tmin(ty) and hi <= tmax(ty):
-            return AI(ty, lo, hi, d, aff if aff is None or d is not None else aff)
+            r = AI(ty, lo, hi, d, aff if aff is None or d is not None else aff)
+            if op == "Shl" and x.tag and x.tag[0] == "shr" and y.const() == x.tag[3]:
+                r.tag = ("hi",) + x.tag[1:]
+            if op == "Shr" and y.const() is not None and self.exact(x) and x.lo >= 0 and aff is None:
+                r.tag = ("shr", x.aff[0], x.aff[1], y.const())
+            return r
         return self._wrapped(ty, lo, hi, aff)
+
+    def recombine(self, x, y, ty):
+        """((s >> k) << k) + (s mod 2^k) = s"""
+        for p, q in ((x, y), (y, x)):
+            if p.tag and q.tag and p.tag[0] == "hi" and q.tag[0] == "low" and p.tag[1:] == q.tag[1:]:
+                r = self.from_aff(ty, p.tag[1], p.tag[2])
+                if r.dir is not None:
+                    return r
+        return None
 
     def _wrapped(self, ty, lo, hi, aff):
         if aff is not None:
@@ -360,6 +379,10 @@ class Interp:
         return self.norm(ty, lo, hi, None, None)
 
     def bitop(self, op, x, y, ty):
+        if op == "BitOr" and x.tag and y.tag:
+            r = self.recombine(x, y, ty)
+            if r is not None:
+                return r
         w, signed = TY[ty]
         cx, cy = x.const(), y.const()
         full = (1 << w) - 1
@@ -390,7 +413,10 @@ class Interp:
                     return x
                 if uc & (uc + 1) == 0:                          # low mask 2^j - 1: remainder
                     if x.lo >= 0:
-                        return self.arith("Rem", x, AI(ty, uc + 1, uc + 1), ty) if uc + 1 <= tmax(ty) else x
+                        r = self.arith("Rem", x, AI(ty, uc + 1, uc + 1), ty) if uc + 1 <= tmax(ty) else x
+                        if self.exact(x) and not self.exact(r):
+                            r.tag = ("low", x.aff[0], x.aff[1], uc.bit_length())
+                        return r
                     if x.aff is not None:
                         j = uc.bit_length()
                         if x.aff[0] % (1 << j) == 0:
@@ -452,7 +478,7 @@ class Interp:
         if ty == "bool":
             raise Unsupported("cast to bool")
         if x.lo >= tmin(ty) and x.hi <= tmax(ty):
-            return AI(ty, x.lo, x.hi, x.dir, x.aff)
+            return AI(ty, x.lo, x.hi, x.dir, x.aff, x.tag)
         return self.norm(ty, x.lo, x.hi, None, x.aff)
 
     # ---- monotone library functions ----------------------------------------------
